@@ -183,6 +183,7 @@ func gridE(tier string) []tcpx.Spec {
 		// sequences: ok then replays, and mixed triples
 		out = append(out, tcpx.Spec{Cache: 10, RealMetrics: true, Conns: []tcpx.ConnSpec{{Class: "ok", Cipher: c, Up: 10, Down: 100}, {Class: "replay-client", Cipher: c, Up: 10, Down: 100}}})
 		if c < 3 {
+			out = append(out, tcpx.Spec{Cache: 10, RealMetrics: true, Conns: []tcpx.ConnSpec{{Class: "ok", Cipher: c, Up: 10, Down: 100}, {Class: "replay-server", Cipher: c}, {Class: "replay-server", Cipher: c}, {Class: "replay-client", Cipher: c, Up: 10, Down: 100}}})
 			out = append(out, tcpx.Spec{Cache: 0, RealMetrics: true, Conns: []tcpx.ConnSpec{{Class: "ok", Cipher: c, Up: 10, Down: 100}, {Class: "replay-server", Cipher: c}}})
 		}
 		for i, a := range classes {
